@@ -18,6 +18,8 @@ Overlay(r) ==
     overlay_marked |-> r.err = "" => \A o \in Rng(r.ov) : ~o.only => MarkedExactly(r.src, o.out, Rng(o.critical)),
     overlay_marked_only |-> r.err = "" => \A o \in Rng(r.ov) : o.only =>
                                \A k \in DOMAIN o.out : (o.out[k].ph = "X" /\ ~o.out[k].keep) => o.out[k].crit,
+    \* identity, not only position: the source entry at the position named by a critical event id is the event the analysis meant
+    critical_identity |-> r.err = "" => \A x \in Rng(r.critRows) : x.id + 1 \in DOMAIN r.src /\ r.src[x.id + 1].name = x.name,
     flow_pairs     |-> r.err = "" => \A o \in Rng(r.ov) : FlowPairs(o.flows, o.edges),
     flow_placement |-> r.err = "" => \A o \in Rng(r.ov) : FlowPlacement(o.flows, o.edges) ]
 
@@ -26,7 +28,10 @@ Files(r) ==
     roundtrip    |-> r.err = "" => \A x \in Rng(r.rt) : x.after = x.before,
     rank_update  |-> r.err = "" => \A x \in Rng(r.ru) : x.restAfter = x.restBefore /\ x.rankAfter = x.want,
     rank_discovery |-> r.err = "" => /\ r.disc.ok
-                                     /\ { <<p[1], p[2]>> : p \in Rng(r.disc.got) } = { <<p[1], p[2]>> : p \in Rng(r.disc.want) } ]
+                                     /\ { <<p[1], p[2]>> : p \in Rng(r.disc.got) } = { <<p[1], p[2]>> : p \in Rng(r.disc.want) },
+    \* history: the files rewritten by update_trace_rank are discovered under their new ranks
+    rank_discovery_after_update |-> r.err = "" => /\ r.disc2.ok
+                                     /\ { <<p[1], p[2]>> : p \in Rng(r.disc2.got) } = { <<p[1], p[2]>> : p \in Rng(r.disc2.want) } ]
 
 Clauses(r) == IF r.kind = "overlay" THEN Overlay(r) ELSE Files(r)
 Verdict(r) == LET c == Clauses(r) IN { k \in DOMAIN c : ~c[k] }
